@@ -1,7 +1,7 @@
 (* C20 — property theorems only.  Bodies live in Proofs.v / SortProofs.v. *)
 From Coq Require Import Sorting.Permutation Sorting.Sorted.
 From EsVerif.Common Require Import Base.
-From EsVerif.C20 Require Import Model Spec Proofs SortProofs.
+From EsVerif.C20 Require Import Model Model2 Spec Proofs SortProofs Proofs2 Gen Tie.
 
 (* The in-place sorts leave a non-decreasing permutation of their input, key-value pairs kept
    together; the recursion always terminates within the model's fuel. *)
@@ -60,6 +60,136 @@ Proof.
   split; [exact sort_check_sound|]. split; [exact sortkv_check_sound|exact pbar_check_sound].
 Qed.
 
+(* ======================================================================================================
+   Tie to the source.  C20/Gen.v is regenerated from esutil/algorithm.py, numpy_util.py and pbar.py of the tree
+   under check on every run (harness/props/c20_translate.py, fail closed); these theorems say that the
+   regenerated definitions ARE the models the theorems above are about, for all inputs. *)
+Theorem C20_source_isplit : forall num nchunks, gen_isplit num nchunks = isplit num nchunks.
+Proof. exact tie_isplit. Qed.
+
+Theorem C20_source_splitarray : forall (A : Type) nper (var : list A), gen_splitarray nper var = splitarray nper var.
+Proof. exact tie_splitarray. Qed.
+
+Theorem C20_source_quicksort : forall d, gen_quicksort (fun x => x) 0 d = quicksort d.
+Proof. exact tie_quicksort. Qed.
+
+Theorem C20_source_quicksort_keyvalue : forall kv, gen_quicksort_kv fst (0, 0) kv = quicksort_keyvalue kv.
+Proof. exact tie_quicksort_keyvalue. Qed.
+
+Theorem C20_source_format_interval : forall t, gen_format_interval t = format_interval t.
+Proof. exact tie_format_interval. Qed.
+
+Theorem C20_source_meter_total : forall n total, gen_meter_total n total = meter_total n total.
+Proof. exact tie_meter_total. Qed.
+
+Theorem C20_source_bar_skeletons :
+  gen_full_skel = full_skel /\ gen_sbar_skel = sbar_skel
+  /\ (forall b, gen_dispatch_simple b = b)
+  /\ (forall n, gen_full_n_step n = n_step n)
+  /\ (forall i, gen_sbar_i_step i = n_step i)
+  /\ (forall n l m, gen_full_iter_test n l m = iter_test n l m)
+  /\ (forall n l, gen_full_final_test n l = final_test n l).
+Proof. exact tie_bar_skeletons. Qed.
+
+(* the generator skeletons read from the source (fallback of total, loop body in order, dispatch), run by the
+   skeleton interpreter, are the pbar model *)
+Theorem C20_source_pbar : forall c items,
+  run_skel (if gen_dispatch_simple (simple c) then gen_sbar_skel else gen_full_skel) c items = pbar c items.
+Proof. exact tie_pbar. Qed.
+
+(* the property clauses stated directly about the regenerated text *)
+Theorem C20_isplit_of_source : forall num nchunks, 0 <= num -> 1 <= nchunks ->
+  exists l, gen_isplit num nchunks = Ok l /\ isplit_ok num nchunks l.
+Proof. exact src_isplit_spec. Qed.
+
+Theorem C20_splitarray_of_source : forall nper (var : list Z), 1 <= nper ->
+  exists cs, gen_splitarray nper var = Ok cs /\ splitarray_ok nper var cs.
+Proof. exact src_splitarray_spec. Qed.
+
+Theorem C20_pbar_of_source : forall c items, pbar_defined c items ->
+  pbar_ok items (run_skel (if gen_dispatch_simple (simple c) then gen_sbar_skel else gen_full_skel) c items).
+Proof. exact src_pbar_spec. Qed.
+
+(* ======================================================================================================
+   More of the code. *)
+(* format_interval never raises; the fields it prints are in range and determine int(t) *)
+Theorem C20_format_interval : forall t,
+  exists r, format_interval t = Ok r /\ fi_value r = Some t /\ fi_fields_ok r.
+Proof. exact format_interval_spec. Qed.
+
+(* meters written by the full bar (mininterval = 0): the first shows 0, counts increase strictly and never
+   exceed the number of items, each shows the total format_meter selects, and with leave=True the last one
+   shows the number of items -- for every miniters, every total (smaller, larger, zero, absent) *)
+Theorem C20_full_bar_meters : forall miniters leave c items,
+  prints_ok (Z.of_nat (length items)) leave (eff_total c (Z.of_nat (length items))) (full_prints miniters leave c items).
+Proof. exact full_prints_ok. Qed.
+
+(* a wrapped iterable that raises at its end: every item is yielded first, lazily, then that exception *)
+Theorem C20_pbar_source_exception : forall c items e,
+  pbar_defined c items -> pbar_on c items e = (tag_from 1 items, e).
+Proof. exact pbar_on_propagates. Qed.
+
+(* nested bars: pbar(pbar(source)) yields exactly the items, and the SOURCE is still pulled lazily *)
+Theorem C20_pbar_nested : forall co ci items,
+  pbar_defined ci items -> pbar_defined (as_generator co) items -> pbar_ok items (pbar_nested co ci items).
+Proof. exact pbar_nested_spec. Qed.
+
+(* python's range as modelled, and prange(start, stop, step) *)
+Theorem C20_py_range : forall start stop step l,
+  py_range start stop step = Ok l ->
+  step <> 0
+  /\ (forall k, (k < length l)%nat -> nth k l 0 = start + Z.of_nat k * step)
+  /\ (0 < step -> (forall x, In x l -> start <= x < stop) /\ stop <= start + Z.of_nat (length l) * step)
+  /\ (step < 0 -> (forall x, In x l -> stop < x <= start) /\ start + Z.of_nat (length l) * step <= stop).
+Proof. exact py_range_spec. Qed.
+
+Theorem C20_prange : forall c args items,
+  range_args args = Ok items -> pbar_defined (as_sized c) items -> pbar_ok items (prange c args).
+Proof. exact prange_spec. Qed.
+
+Theorem C20_prange_bad_arguments : forall c args e, range_args args = Err e -> prange c args = ([], Some e).
+Proof. exact prange_bad_arguments. Qed.
+
+(* pmap when the mapped function raises: for EVERY complete schedule the outcome is the in-order retrieval
+   (ref_chunks); it ends with the exception sequential list(map(fn, items)) ends with (the first failing item in
+   input order) and the values that went through the bar are a prefix of the sequential ones (all of them when
+   nothing raised) *)
+Theorem C20_pmap_exn_all_schedules : forall f items chunksize schedule,
+  (forall k, 0 <= k < Z.of_nat (length (chunks_of (length items) (Z.to_nat chunksize) items)) -> In k schedule) ->
+  pmap_exn f items chunksize schedule = Some (ref_chunks f (chunks_of (length items) (Z.to_nat chunksize) items)).
+Proof. exact pmap_exn_all_schedules. Qed.
+
+Theorem C20_pmap_exn_sequential : forall f items chunksize schedule,
+  1 <= chunksize ->
+  (forall k, 0 <= k < Z.of_nat (length (chunks_of (length items) (Z.to_nat chunksize) items)) -> In k schedule) ->
+  exists out, pmap_exn f items chunksize schedule = Some out
+    /\ snd out = snd (seq_run f items)
+    /\ exists rest, fst (seq_run f items) = fst out ++ rest /\ (snd out = None -> rest = []).
+Proof. exact pmap_exn_sequential. Qed.
+
+(* one worker (nproc = 1: the only schedule is the submission order) and one chunk (chunksize >= len) *)
+Theorem C20_pmap_single_worker : forall f items chunksize,
+  1 <= chunksize ->
+  pmap f items chunksize (zseq 0 (length (chunks_of (length items) (Z.to_nat chunksize) items))) = Some (map f items).
+Proof. exact pmap_in_order. Qed.
+
+Theorem C20_pmap_one_chunk : forall f items chunksize schedule,
+  items <> [] -> Z.of_nat (length items) <= chunksize -> In 0 schedule ->
+  pmap f items chunksize schedule = Some (map f items).
+Proof. exact pmap_one_chunk. Qed.
+
+Theorem C20_empty_inputs :
+  (forall n, 1 <= n -> isplit 0 n = Ok (repeat (0, 0) (Z.to_nat n)))
+  /\ (forall nper, nper <> 0 -> splitarray nper (@nil Z) = Ok [])
+  /\ quicksort [] = Some [] /\ quicksort_keyvalue [] = Some []
+  /\ (forall c, pbar c [] = if simple c && negb (has_len c) && match total c with None => true | Some _ => false end
+                            then ([], Some ERuntime) else ([], None))
+  /\ (forall f chunksize schedule, pmap f [] chunksize schedule = Some [])
+  /\ (forall f chunksize schedule, pmap_exn f [] chunksize schedule = Some ([], None)).
+Proof. exact empty_inputs. Qed.
+
+Definition task_exn_demo (x : Z) : result Z := if x =? 4 then Err EValue else if x =? 5 then Err EKey else Ok (x * x).
+
 (* Non-vacuity: concrete non-trivial instances meet the hypotheses and the conclusions compute. *)
 Example C20_nonvacuous :
   isplit 10 3 = Ok [(0, 4); (4, 7); (7, 10)]
@@ -69,3 +199,13 @@ Example C20_nonvacuous :
 Proof.
   repeat split; try reflexivity. intros _. exists 2. split; [reflexivity|]. intro; discriminate.
 Qed.
+
+Example C20_nonvacuous2 :
+  py_range 10 0 (-3) = Ok [10; 7; 4; 1]
+  /\ format_interval 3725 = Ok (FmtHMS, [1; 2; 5])
+  /\ full_prints 2 true {| simple := false; has_len := true; total := Some 3 |} [7; 8; 9; 6; 5]
+     = [(0, Some 3); (2, Some 3); (4, None); (5, None)]
+  /\ pmap_exn (task_exn_demo) [1; 2; 3; 4; 5; 6] 2 [2; 1; 0] = Some ([1; 4], Some EValue)
+  /\ pbar_nested {| simple := true; has_len := true; total := Some 9 |} {| simple := false; has_len := false; total := None |} [5; 6]
+     = ([(5, 1); (6, 2)], None).
+Proof. repeat split; reflexivity. Qed.
